@@ -28,11 +28,59 @@ type Val struct {
 type comp struct {
 	suffix string
 	sort   int
-	role   byte // 'r' ref, 'o' off, 'l' len, 'c' cap, 't' iface type, 'v' plain
+	role   byte // 'r' ref, 'o' off, 'l' len, 'c' cap, 't' iface type, 'v' plain, 'i' iface data
 }
 
+// hsort is the sort a component has in heaps and as a fresh symbol: offsets, lengths and
+// capacities are below 2^48 (Go's maxAlloc on amd64), which is made structural - a 48-bit
+// symbol zero-extended - so that signed and unsigned comparisons on them coincide for the
+// solver without arithmetic reasoning.
+func (c comp) hsort() int {
+	return c.sort
+}
+
+const sizeBits = 48
+
+var hsortBits = 48
+
+var typeKeyCache = map[types.Type]string{}
+
+// typeKey is a canonical name for a type (aliases byte/rune/any spelled out).
 func typeKey(t types.Type) string {
-	return types.TypeString(t, func(p *types.Package) string { return p.Path() })
+	if k, ok := typeKeyCache[t]; ok {
+		return k
+	}
+	s := types.TypeString(t, func(p *types.Package) string { return p.Path() })
+	var sb strings.Builder
+	i := 0
+	for i < len(s) {
+		c := s[i]
+		if c == '_' || c >= 'a' && c <= 'z' || c >= 'A' && c <= 'Z' {
+			j := i
+			for j < len(s) && (s[j] == '_' || s[j] >= 'a' && s[j] <= 'z' || s[j] >= 'A' && s[j] <= 'Z' || s[j] >= '0' && s[j] <= '9') {
+				j++
+			}
+			tok := s[i:j]
+			if i == 0 || s[i-1] != '.' {
+				switch tok {
+				case "byte":
+					tok = "uint8"
+				case "rune":
+					tok = "int32"
+				case "any":
+					tok = "interface{}"
+				}
+			}
+			sb.WriteString(tok)
+			i = j
+			continue
+		}
+		sb.WriteByte(c)
+		i++
+	}
+	k := sb.String()
+	typeKeyCache[t] = k
+	return k
 }
 
 var flattenCache = map[string][]comp{}
@@ -52,18 +100,18 @@ func flatten(t types.Type) []comp {
 		case u.Info()&types.IsString != 0:
 			out = []comp{{"#ref", 64, 'r'}, {"#off", 64, 'o'}, {"#len", 64, 'l'}}
 		case u.Kind() == types.UnsafePointer:
-			out = []comp{{"", 64, 'r'}}
+			out = []comp{{"$p", 64, 'r'}}
 		case u.Kind() == types.UntypedNil:
 			out = []comp{{"", 64, 'r'}}
 		default:
 			out = []comp{{"", basicBits(u), 'v'}}
 		}
 	case *types.Pointer, *types.Map, *types.Chan, *types.Signature:
-		out = []comp{{"", 64, 'r'}}
+		out = []comp{{"$p", 64, 'r'}}
 	case *types.Slice:
 		out = []comp{{"#ref", 64, 'r'}, {"#off", 64, 'o'}, {"#len", 64, 'l'}, {"#cap", 64, 'c'}}
 	case *types.Interface:
-		out = []comp{{"#typ", 32, 't'}, {"#val", 64, 'r'}}
+		out = []comp{{"#typ", 32, 't'}, {"#val", 64, 'i'}}
 	case *types.Struct:
 		for i := 0; i < u.NumFields(); i++ {
 			f := u.Field(i)
@@ -158,37 +206,49 @@ func (x *Exec) fresh(t types.Type, hint string) *Val {
 	v := &Val{T: t, C: make([]*Term, len(cs))}
 	x.nsym++
 	for i, c := range cs {
-		v.C[i] = x.tb.Var(fmt.Sprintf("%s%s!%d", hint, c.suffix, x.nsym), c.sort)
+		w := c.sort
+		switch c.role {
+		case 'o', 'l', 'c':
+			w = hsortBits
+		}
+		v.C[i] = x.tb.ZExt(c.sort, x.tb.Var(fmt.Sprintf("%s%s!%d", hint, c.suffix, x.nsym), w))
 	}
 	return v
 }
 
 // validity returns the type-invariant facts of a value: slice headers are sane, refs are
 // below the allocation frontier `top` (when top != nil).
-func (x *Exec) validity(v *Val, top *Term) []*Term {
+func (x *Exec) validity(v *Val, refOK func(*Term) *Term) []*Term {
 	tb := x.tb
 	var out []*Term
 	cs := flatten(v.T)
-	lim := tb.BV(64, 1<<48)
-	var lenT, offT *Term
+	small := func(t *Term) *Term { return tb.Eq(tb.Extract(63, sizeBits, t), tb.BV(64-sizeBits, 0)) }
+	bounded := func(t *Term) bool { return t.Op == "zext" && t.Args[0].Sort <= sizeBits || t.IsConst() && t.Val < 1<<sizeBits }
+	var lenT *Term
 	for i, c := range cs {
 		switch c.role {
 		case 'r':
-			if top != nil {
-				out = append(out, tb.Cmp("bvule", v.C[i], top))
+			if refOK != nil {
+				out = append(out, refOK(v.C[i]))
 			}
 		case 'o':
-			offT = v.C[i]
-			out = append(out, tb.Cmp("bvule", v.C[i], lim))
+			if !bounded(v.C[i]) {
+				out = append(out, small(v.C[i]))
+			}
 		case 'l':
 			lenT = v.C[i]
-			out = append(out, tb.Cmp("bvule", v.C[i], lim))
-			// strings: ref 0 only with len 0 is not needed
+			if !bounded(v.C[i]) {
+				out = append(out, small(v.C[i]))
+			}
 		case 'c':
-			out = append(out, tb.Cmp("bvule", lenT, v.C[i]), tb.Cmp("bvule", v.C[i], lim))
+			out = append(out, tb.Cmp("bvule", lenT, v.C[i]))
+			if !bounded(v.C[i]) {
+				out = append(out, small(v.C[i]))
+			}
+			// the whole array is below 2^48 elements
+			out = append(out, small(tb.Add(v.C[i-2], v.C[i])))
 			// a nil slice (ref 0) has len = cap = 0
 			out = append(out, tb.Implies(tb.Eq(v.C[i-3], tb.BV(64, 0)), tb.Eq(v.C[i], tb.BV(64, 0))))
-			_ = offT
 		}
 	}
 	return out
